@@ -224,6 +224,13 @@ func (x *Exec) mathSqrt(guard, a *smt.Term) *smt.Term {
 	r := x.b.App("math_sqrt", "Real", a)
 	if !r.Bound {
 		x.assume(guard, x.b.Implies(x.b.Cmp(">=", a, x.realLit(0)), x.b.And(x.b.Cmp(">=", r, x.realLit(0)), x.b.Eq(x.b.Mul(r, r), a))))
+	} else if !x.ufDecl["sqrtax"] {
+		// sqrt applied under a binder: state its definition once, triggered by applications
+		x.ufDecl["sqrtax"] = true
+		v := x.b.BoundVar("sqx!ax", "Real")
+		app := x.b.App("math_sqrt", "Real", v)
+		body := x.b.Implies(x.b.Cmp(">=", v, x.realLit(0)), x.b.And(x.b.Cmp(">=", app, x.realLit(0)), x.b.Eq(x.b.Mul(app, app), v)))
+		x.hyps = append(x.hyps, x.b.Quant("forall", []*smt.Term{v}, body, app))
 	}
 	x.note("real model: math.Sqrt(x) is the exact non-negative root for x >= 0 (NaN for x < 0 not modelled)")
 	return r
